@@ -11,7 +11,9 @@ EXTENDS Alloc, Json
 CONSTANTS Svcs,        \* service identities used
           LayoutSet,   \* layouts SetPools may install
           InitLayout,
-          Reqs,        \* request records
+          Reqs,        \* request records (Assign, Allocate)
+          ReqsFP,      \* request records for AllocateFromPool / additional family
+          ReqsAssign,  \* request records for Assign
           IpSeqs,      \* address sequences Assign may be called with
           MaxOps       \* bound on the length of a behaviour (0 = unbounded)
 
@@ -24,6 +26,7 @@ Init == /\ layout = InitLayout
         /\ al = [s \in Svcs |-> NULL]
         /\ act = [op |-> "Init"]
         /\ nops = 0
+        /\ PrintT(ToJson([init |-> [layout |-> layout, al |-> al]]))
 
 Tick == nops' = IF MaxOps = 0 THEN 0 ELSE nops + 1
 Bound == MaxOps = 0 \/ nops < MaxOps
@@ -62,18 +65,18 @@ DoSetPools(L2) ==
 AllPoolNames == UNION {PoolNames(L) : L \in LayoutSet}
 
 Next == /\ Bound /\ Tick
-        /\ \/ \E s \in Svcs, ips \in IpSeqs, r \in Reqs : DoAssign(s, ips, r)
+        /\ \/ \E s \in Svcs, ips \in IpSeqs, r \in ReqsAssign : DoAssign(s, ips, r)
            \/ \E s \in Svcs : DoUnassign(s)
            \/ \E s \in Svcs, r \in Reqs : DoAllocate(s, r)
-           \/ \E s \in Svcs, pn \in AllPoolNames, r \in Reqs : DoAllocFromPool(s, pn, r)
-           \/ \E s \in Svcs, r \in Reqs : DoAdditional(s, r)
+           \/ \E s \in Svcs, pn \in AllPoolNames, r \in ReqsFP : DoAllocFromPool(s, pn, r)
+           \/ \E s \in Svcs, r \in ReqsFP : DoAdditional(s, r)
            \/ \E L2 \in LayoutSet : DoSetPools(L2)
 
 Spec == Init /\ [][Next]_vars
 
 (* Role B: one JSON line per generated transition.                          *)
 StateRec(l, a) == [layout |-> l, al |-> a]
-Emit == PrintT(ToJson([pre |-> StateRec(layout, al), act |-> act', post |-> StateRec(layout', al')]))
+Emit == PrintT(ToJson([pre |-> StateRec(layout, al), act |-> act', post |-> StateRec(layout', al'), n |-> nops]))
 
 ----------------------------------------------------------------------------
 (* Role A: invariants of the design                                         *)
@@ -101,9 +104,18 @@ ReqsFam == { MkReq({"tcp80"}, "", "", "v4", "S", FALSE),
              MkReq({"tcp80"}, "", "", "dual", "P", TRUE),
              MkReq({"tcp80"}, "k1", "", "dual", "P", FALSE),
              MkReq({"tcp443"}, "k1", "", "v4", "S", FALSE) }
+ReqsFamAssign == { MkReq({"tcp80"}, "", "", "v4", "S", FALSE),
+                   MkReq({"tcp80"}, "k1", "", "dual", "P", FALSE),
+                   MkReq({"tcp443"}, "k1", "", "v4", "S", FALSE) }
 ReqsPlain == { MkReq({"tcp80"}, "", "", "v4", "S", FALSE),
                MkReq({"tcp80"}, "k1", "", "v4", "S", FALSE),
                MkReq({"tcp443"}, "k1", "", "v4", "S", FALSE) }
+
+ReqsCount == { MkReq({"tcp80"}, "k1", "", "v4", "S", FALSE),
+               MkReq({"tcp443"}, "k1", "", "v4", "S", FALSE),
+               MkReq({"tcp80"}, "", "", "v6", "S", FALSE),
+               MkReq({"tcp80"}, "k1", "", "dual", "P", FALSE) }
+Seqs_count == {<<0>>, <<1>>, <<3>>, <<100>>, <<1, 100>>, <<101, 0>>}
 
 SeqsOver(A) == {<<a>> : a \in A} \cup {<<a, b>> : a \in A, b \in A}
 Seqs_0_1     == {<<0>>, <<1>>, <<0, 1>>}
